@@ -74,7 +74,24 @@ class Builder:
         sh = self.sh; rng = self.rng
         i = sh.pick(rng, 'N', 'D')      # a dead id re-uses its address
         if i is None: return False
-        kind = kind or rng.choices(['new', 'newroot', 'newraw', 'tnew'], [78, 12, 5, 5])[0]
+        kind = kind or rng.choices(['new', 'newroot', 'newraw', 'tnew', 'tnewx'], [74, 12, 5, 4, 5])[0]
+        if kind == 'tnewx':
+            # exact threshold path: the allocation collects; survivors = roots + the listed objects + the new one
+            man = sh.ids('M')
+            keep = [j for j in man if rng.random() < rng.choice([0.0, 0.3, 0.7, 1.0])][:30]
+            if rng.random() < 0.2:
+                o = sh.pick(rng, 'U', 'D')
+                if o is not None and o != i: keep.append(o)
+            rng.shuffle(keep)
+            self.emit(f'tnewx {i} {self.all[i]}' + ''.join(f' {j}' for j in keep))
+            if sh.running:
+                ks = set(keep)
+                dead = [j for j in man if not sh.root[j] and j not in ks]
+                sh.set(i, 'M'); sh.root[i] = False      # registered before the collection: a destructor may delete it
+                for j in dead: sh.set(j, 'D')
+                sh.closure(dead, True)
+            else: sh.set(i, 'U'); sh.root[i] = False
+            return True
         self.emit(f'{kind} {i} {self.all[i]}')
         if kind == 'newraw' or not sh.running: sh.set(i, 'U'); sh.root[i] = False
         else: sh.set(i, 'M'); sh.root[i] = kind == 'newroot'
@@ -87,6 +104,21 @@ class Builder:
         self.emit(f"{'delroot' if sh.root.get(i) and rng.random() < 0.7 else 'del'} {i}")
         if sh.running and sh.st[i] == 'M':
             sh.set(i, 'D'); sh.closure([i], True)
+        return True
+    def delnull(self):
+        """del(NULL): at top level, or from the destructor of an object that is deleted explicitly right away (never left armed
+        for a collection: that is known finding KF-C17-null-del-sweep)"""
+        sh = self.sh; rng = self.rng
+        if rng.random() < 0.4: self.emit('delnull'); return True
+        i = sh.pick(rng, 'M', 'U')
+        if i is None: self.emit('delnull'); return True
+        self.emit(f'killnull {i}')
+        if sh.st[i] == 'U':
+            self.emit(f'delraw {i}'); sh.set(i, 'D'); sh.closure([i], sh.running)
+        else:
+            self.emit(f"{'delroot' if sh.root.get(i) else 'del'} {i}")
+            if sh.running: sh.set(i, 'D'); sh.closure([i], True)
+        self.emit(f'unkill {i}'); sh.kills[i] = []
         return True
     def delraw(self):
         sh = self.sh
@@ -139,7 +171,8 @@ class Builder:
         elif r < p_new + 0.42: self.sweep(collect=True)
         elif r < p_new + 0.47: self.kill()
         elif r < p_new + 0.485: self.emit('stop'); sh.running = False
-        elif r < p_new + 0.50: self.delraw()
+        elif r < p_new + 0.495: self.delraw()
+        elif r < p_new + 0.505: self.delnull()
         else: self.new() or self.mem()
 
 def mixed_case(rng, name, fam_k, n_ids, n_ops, waves=3):
@@ -190,8 +223,8 @@ class C17(Spec):
                  'compaction, rehashing) to a ledger of live managed addresses, by invariant preservation over every history; prime table, load '
                  'factor, hash shift, probe formula, tie rule and threshold formula regenerated from src/GC.c each run; white-box differential '
                  'check of the whole entry array against the real collector after every operation')
-    level_text = ('Theorem C17_registry_exact: for every history of new / new_root / raw allocation / del / collection with an arbitrary mark set '
-                  '(explicit, or triggered by an allocation reaching the threshold) / stop / start in which a new address is 8-aligned and differs from '
+    level_text = ('Theorem C17_registry_exact: for every history of new / new_root / raw allocation / del / del_raw / collection with an arbitrary mark set '
+                  '(explicit, or triggered by an allocation reaching the threshold) / stop / start in which a new address is non-NULL, 8-aligned and differs from '
                   'the live managed ones, at every reachable state the model of GC.c has mem(p) exactly for the live managed addresses, each '
                   'recorded once with its allocation-time root flag, nitems equal to their number, every address inside [minptr,maxptr], all '
                   'marks clear, the pending list empty, and the local robin-hood invariant with an empty slot; C17_progress: the model never divides '
@@ -201,8 +234,15 @@ class C17(Spec):
                   '(wrap-around included), GC_Sweep as a whole against a ledger; C17_rem_nested / C17_nested_simulation: GC_Rem with destructors that '
                   'delete other objects, in any well-formed state including mid-sweep with objects on the pending list, refines the same recursion on '
                   '(ledger, pending addresses) and terminates within the fuel; C17_sweep_destructors / C17_registry_exact_destructors / '
-                  'C17_progress_destructors: the same history theorem when destructors delete other objects during a sweep or a removal (ledger '
-                  'transitions given by the abstract recursion; finalisation order = the sweep\'s slot order); C17_invB_sound: the executable '
+                  'C17_progress_destructors: the same history theorem when destructors delete other (non-NULL) objects during a sweep or a removal, by '
+                  'induction over the history for every ledger the abstract transitions allow (ReachK has no well-formedness premise); '
+                  'C17_ledger_choice_irrelevant: the ledger after a collection does not depend on the order in which the sweep lists the reclaimed '
+                  'objects (the nested finalisation is a depth-first traversal of the destructor graph). Excluded regions, each with a refutation on a '
+                  'concrete witness that the C code reproduces: C17_null_del_in_sweep_refuted / C17_progress_all_destructors_refuted (a destructor '
+                  'calling del(NULL): fine under del, ValueError inside GC_Sweep), C17_stopped_window_refuted with C17_registry_exact_ideal_partial '
+                  '(ledger of the property text, a function of the history: exact outside the stop..start window, violated inside it: F23), '
+                  'C17_dealloc_refuted / C17_dealloc_reuse_refuted / C17_dealloc_twice_refuted (dealloc / dealloc_root leave a stale entry; the address '
+                  'allocated again is counted twice, keeps the old root flag or is recorded twice). C17_invB_sound: the executable '
                   'invariant the driver evaluates implies the propositional one. Source-derived: GC_Ideal_Size(n) > n over the generated prime table '
                   'and load factor, GC_Probe = cyclic distance, GC_Hash = p/8. The model is tied to the real GC.c by comparing the complete entry '
                   'array, counters, bounds and deallocation order after every operation on histories whose addresses collide modulo every registry size.')
@@ -212,7 +252,8 @@ class C17(Spec):
                   'With destructors that delete other objects the ledger transition of a collection is a relation (it depends on the order in which '
                   'the sweep lists the reclaimed objects), not a function of the history. '
                   'Not covered: the mark phase itself (C01), finalisation accounting (C06), other threads (C13), allocation inside destructors.')
-    rule = ('histories of new/newroot/newraw/tnew/del/delroot/delraw/mem/sweep(marked set)/collect(real GC_Mark)/kill/stop/start over probe objects whose '
+    rule = ('histories of new/newroot/newraw/tnew/tnewx(threshold path of GC_Set, exact: marks reduced to roots+listed+new between the real GC_Mark and '
+            'GC_Sweep)/del/delroot/delraw/delnull/killnull+del/mem/sweep(marked set)/collect(real GC_Mark)/kill/stop/start over probe objects whose '
             'addresses are chosen in one residue class modulo the product of the first k registry sizes 5,11,23,53,101,197,389 (k = 3..7) plus strays; '
             '(a) mixed histories over small pools (tables of 1..101 slots, constant wrap-around, grow and shrink), (b) growth through the primes to '
             'the pool size and back down by deletions and by collections, (c) GC_Ideal_Size change points on a range, (d) corpus. Every op is run on the '
@@ -220,10 +261,18 @@ class C17(Spec):
             'which an entry sits away from its home slot, or objects were finalised, or the table was rehashed; distinct = distinct observation text.')
     trusted_base = ('translate/g_reg.py generator Reg (regex over src/GC.c)',
                     'harness/h_reg.c + lean/Driver/Reg.lean (correspondence is testing)',
-                    'IEEE double division in GC_Ideal_Size modelled as floor((n+1)*10/9): compared with the C function on 0..2*10^5 (quick) / 0..10^7 (thorough)',
+                    'IEEE double division in GC_Ideal_Size modelled as floor((n+1)*10/9): compared with the C function on 0..2*10^5 (quick) / 0..10^7 (thorough); '
+                    'the two agree for every n < 3*10^8 and first differ above 2^53 (53-bit mantissa)',
+                    'harness hook between GC_Mark and GC_Sweep (op tnewx): a `realloc` macro in h_reg.c routes the library\'s realloc calls through a callback',
                     'mmap at a fixed address, fork (libc) in the harness')
-    assumptions = ('live addresses are pairwise distinct (malloc) and 8-byte aligned; counts < 2^63',
-                   'del while the collector is stopped is a no-op of the registry (F23 belongs to C06): the ledger keeps the object as managed',
+    assumptions = ('a new object\'s address is non-NULL, 8-byte aligned and differs from the live managed ones (malloc); counts < 2^53',
+                   'objects are released through del / del_root / del_raw or the collector, never through dealloc / dealloc_root while registered '
+                   '(known finding KF-C17-dealloc-stale: witness corpus/kf_c17_dealloc.ops, never generated)',
+                   'generated histories follow the code in the stop..start window (allocation not recorded, del ignored: the ledger of theorem '
+                   'C17_registry_exact); against the ledger of the property text this window is known finding KF-C17-stopped (op `strict`, witness '
+                   'corpus/kf_c17_stopped.ops, never generated)',
+                   'no destructor calls del(NULL) while a collection finalises it (known finding KF-C17-null-del-sweep: witness '
+                   'corpus/kf_c17_null_del_sweep.ops); generated inputs use killnull only on an object deleted explicitly by the next op',
                    'destructors delete but do not allocate managed objects during a sweep; the mark phase does not call del',
                    'single thread (each thread has its own registry)')
     def cases(self, rng, tier, boost=1):
@@ -253,7 +302,7 @@ class C17(Spec):
         items = set(); prev_n = None
         for o in core.lines_with('O ', c_out):
             w = o.split()
-            if len(w) < 4 or w[1] not in ('new', 'newroot', 'tnew', 'del', 'delroot', 'delraw', 'sweep', 'sweepmod', 'collect'): continue
+            if len(w) < 4 or w[1] not in ('new', 'newroot', 'tnew', 'tnewx', 'del', 'delroot', 'delraw', 'delnull', 'sweep', 'sweepmod', 'collect'): continue
             n = o.split(' n=')[1].split()[0] if ' n=' in o else None
             fin = o.split(' fin=')[1].split(' |')[0] if ' fin=' in o else ''
             es = _entries(o)
@@ -277,6 +326,7 @@ class C17(Spec):
             fin = o.split(' fin=')[1].split(' |')[0]
             nf = int(fin[1:].split(':')[0]) if fin.startswith('#') else (len(fin.split(',')) if fin else 0)
             if w[1] in ('sweep', 'sweepmod', 'collect') and nf: acc['collections_that_freed'] = acc.get('collections_that_freed', 0) + 1
+            if w[1] == 'tnewx' and nf: acc['threshold_collections_that_freed'] = acc.get('threshold_collections_that_freed', 0) + 1
             if w[1] in ('del', 'delroot', 'delraw') and nf > 1: acc['deletions_with_destructor_removals'] = acc.get('deletions_with_destructor_removals', 0) + 1
             acc['finalised'] = acc.get('finalised', 0) + nf
             es = _entries(o)
